@@ -22,18 +22,18 @@ import (
 
 func TestC24Apps(t *testing.T) {
 	harness.Check(t, "C24",
-		"APPLICATIONS part. real app in the chain simulator, 8-18 generated blocks: app stake / edit-stake / begin-unstake (own, repeated, or a stranger signing for another app) / transfer txs, "+
+		"APPLICATIONS part. real app in the chain simulator, 6-14 generated blocks: app stake / edit-stake / begin-unstake (own, repeated, or a stranger signing for another app) / transfer txs, "+
 			"sends as noise, app unstaking time in {0,5,20,90}s, time steps {0,1,5,15,40,100}s or aimed at the completion time -1s/exact/+1s/+3min; monitor over raw application records: "+
 			"Staked is left only in a block with an accepted begin-unstake signed by the application itself (or an accepted transfer by it); completion time = block time + AppUnstakingTime; "+
 			"no Unstaking record survives a block with time >= completion, no record is removed before it; in the removal block the application's address gains exactly the stake. "+
 			"(the non-trivial rule of the nodes part applies to the nodes cases; an application case is non-trivial when a maturity is crossed by a time jump >= 40s strictly past the completion time)",
-		map[string]float64{"app-unstake-complete": 0.12, "app-payout-checked-exactly": 0.1, "app-begin-unstake-by-stranger-rejected": 0.05},
+		map[string]float64{"apps-part": 0.45, "app-unstake-complete": 0.3, "app-payout-checked-exactly": 0.15, "app-begin-unstake-by-stranger-rejected": 0.15, "app-maturity-at-exact-time": 0.15, "app-maturity-by-time-jump": 0.1},
 		func(rt *rapid.T, c *harness.Case) {
 			w := chain.GenWorld(rt)
 			w.Spec.GenesisTime = eraPast
 			c.Opf("apps: %s", w.Describe())
 			n := chain.NewNode(&w.Spec)
-			nb := rapid.IntRange(8, 18).Draw(rt, "blocks")
+			nb := rapid.IntRange(6, 14).Draw(rt, "blocks")
 			pre := posview.Read(n)
 			preA := posview.ReadApps(n)
 			c.Label("apps-part")
